@@ -96,11 +96,7 @@ Fixpoint model_updates (h : hist) (us : list snapshot) : hist * list (bool * N *
 
 Definition model_answer (h : hist) (own : bool) (c : N) : answer :=
   match diff h own c with
-  | Some (tag, d) =>
-      match d_rkeys d, d_aspas d with
-      | [], [] => Some (tag, wire_of (d_origins d))
-      | _, _ => Some (tag + 1000000000000, wire_of (d_origins d))
-      end
+  | Some (tag, d) => Some (tag, wire_of (d_origins d))
   | None => None
   end.
 
